@@ -110,6 +110,8 @@ func (e *executableWorkflow) Execute(ctx context.Context, serializedInput any) (
 		callableFunctions: e.callableFunctions,
 		dag:               e.dag.Clone(),
 		runningSteps:      make(map[string]step.RunningStep, len(e.dag.ListNodes())),
+		reportedStages:    make(map[string]string, len(e.runnableSteps)),
+		completedSteps:    make(map[string]struct{}, len(e.runnableSteps)),
 		outputDataChannel: make(chan outputDataType, 1),
 		outputDone:        false,
 		waitingOutputs:    outputNodes,
@@ -153,7 +155,7 @@ func (e *executableWorkflow) Execute(ctx context.Context, serializedInput any) (
 					waitingForInputText = " and is waiting for input"
 				}
 				e.logger.Debugf("Stage change for step %s to %s%s...", stepID, stage, waitingForInputText)
-				l.onStageComplete(stepID, previousStage, previousStageOutputID, previousStageOutput, wg)
+				l.onStageComplete(stepID, previousStage, previousStageOutputID, previousStageOutput, &stage, wg)
 			},
 			onStepComplete: func(
 				_ step.RunningStep,
@@ -167,7 +169,7 @@ func (e *executableWorkflow) Execute(ctx context.Context, serializedInput any) (
 				} else {
 					e.logger.Debugf("Step %s completed with stage '%s'...", stepID, previousStage)
 				}
-				l.onStageComplete(stepID, &previousStage, previousStageOutputID, previousStageOutput, wg)
+				l.onStageComplete(stepID, &previousStage, previousStageOutputID, previousStageOutput, nil, wg)
 			},
 			onStepStageFailure: func(_ step.RunningStep, stage string, _ *sync.WaitGroup, err error) {
 				if err == nil {
@@ -316,6 +318,11 @@ type loopState struct {
 	dag               dgraph.DirectedGraph[*DAGItem]
 	callableFunctions map[string]schema.CallableFunction
 	runningSteps      map[string]step.RunningStep
+	// reportedStages holds the stage each step has most recently reported entering, and completedSteps
+	// the steps that reported their completion. A step changes its stage and state before it reports the
+	// change, so comparing these to the step's own view tells if a report is still on its way.
+	reportedStages    map[string]string
+	completedSteps    map[string]struct{}
 	outputDataChannel chan outputDataType
 	outputDone        bool
 	// waitingOutputs keeps track of all workflow output nodes to know when the workflow fails.
@@ -393,6 +400,7 @@ func (l *loopState) onStageComplete(
 	previousStage *string,
 	previousStageOutputID *string,
 	previousStageOutput *any,
+	newStage *string,
 	wg *sync.WaitGroup,
 ) {
 	l.lock.Lock()
@@ -402,6 +410,12 @@ func (l *loopState) onStageComplete(
 		}
 		l.lock.Unlock()
 	}()
+	// Keep track of how far the step's reports have been processed. A nil new stage means that the step is complete.
+	if newStage != nil {
+		l.reportedStages[stepID] = *newStage
+	} else {
+		l.completedSteps[stepID] = struct{}{}
+	}
 
 	if previousStage == nil {
 		return
@@ -680,12 +694,25 @@ func (l *loopState) countStates() (counters stateCounters) {
 			counters.starting++
 			l.logger.Debugf("Step %s is currently starting.", stepID)
 		case step.RunningStepStateWaitingForInput:
+			if runningStep.CurrentStage() != l.reportedStages[stepID] {
+				// The step entered a new stage, but its report of the change, with the output of the
+				// previous stage, has yet to arrive here. The input it waits for may depend on that.
+				counters.running++
+				l.logger.Debugf("Step %s is currently reporting a stage change.", stepID)
+				continue
+			}
 			counters.waiting++
 			l.logger.Debugf("Step %s is currently waiting.", stepID)
 		case step.RunningStepStateRunning:
 			counters.running++
 			l.logger.Debugf("Step %s is currently running.", stepID)
 		case step.RunningStepStateFinished:
+			if _, completed := l.completedSteps[stepID]; !completed {
+				// The step is done, but its completion, with its output, has yet to arrive here.
+				counters.running++
+				l.logger.Debugf("Step %s is currently reporting its completion.", stepID)
+				continue
+			}
 			counters.finished++
 			l.logger.Debugf("Step %s is currently finished.", stepID)
 		}
